@@ -163,6 +163,9 @@ SkeletonKinds(r) ==
                       THEN <<>> ELSE <<"marker-not-in-a-string">>)
 
 JudgeAll(r) ==
+  \* a text the specification REJECTS (an unknown word): reading and compiling it must fail, whatever the rest says
+  IF "rej" \in DOMAIN r THEN [kinds |-> IF r.c.st = "ok" THEN <<"accepted-unsupported">> ELSE IF r.c.st = "panic" THEN <<"compile-panic">> ELSE <<>>,
+                              info |-> "text the specification rejects", nfiles |-> 0, file |-> 0] ELSE
   LET j == JudgeCompile(r) IN
   IF "c0" \in DOMAIN r THEN [j EXCEPT !.kinds = j.kinds \o SkeletonKinds(r)] ELSE j
 
